@@ -159,6 +159,9 @@ class ExpandedTraceback:
         # https://docs.python.org/3/library/traceback.html#traceback.print_exception
         if isinstance(self.exception, SyntaxError):
             offset = self.exception.offset
+            if offset is None:
+                # Some SyntaxErrors have no position (e.g., null bytes in the source)
+                offset = 1
             if IS_AT_LEAST_PYTHON_310 and not IS_SKULPT:
                 end_lineno = self.exception.end_lineno
                 end_offset = offset if self.exception.end_offset not in {None, 0} else offset
